@@ -308,8 +308,10 @@ USER_ATTRS = [{"name": "Attr1", "charId": "Email", "tableId": "U", "lookupColId"
               {"name": "Attr2", "charId": "Email", "tableId": "T", "lookupColId": "B"}]
 
 
-def build_doc(formulas):
-  """formulas: list aligned with SLOTS of (pieces, stored_unparsed).  Returns the engine."""
+def build_doc(formulas, ua_last=False):
+  """formulas: list aligned with SLOTS of (pieces, stored_unparsed).  Returns the engine.
+  ua_last: create the user-attribute rules AFTER the formula rules (higher row ids), the order a
+  document gets when attributes are added to existing rules."""
   e = eng.new_engine()
   eng.apply(e, [
     ["AddTable", "R2", [{"id": "A", "type": "Text"}, {"id": "C2", "type": "Text"}]],
@@ -323,8 +325,9 @@ def build_doc(formulas):
   tref = eng.table_ref(e, "T")
   acts = []
   acts.append(["AddRecord", "_grist_ACLResources", -1, {"tableId": "*", "colIds": "*"}])
-  for ua in USER_ATTRS:
-    acts.append(["AddRecord", "_grist_ACLRules", None, {"resource": -1, "userAttributes": json.dumps(ua)}])
+  if not ua_last:
+    for ua in USER_ATTRS:
+      acts.append(["AddRecord", "_grist_ACLRules", None, {"resource": -1, "userAttributes": json.dumps(ua)}])
   for i, (t, cols) in enumerate(RESOURCES):
     acts.append(["AddRecord", "_grist_ACLResources", -(i + 2), {"tableId": t, "colIds": cols}])
   eng.apply(e, acts)
@@ -358,6 +361,10 @@ def build_doc(formulas):
         if raw: cond["parsed"] = None
       acts.append(["AddRecord", "_grist_Triggers", None, {"tableRef": tref, "condition": json.dumps(cond)}])
   eng.apply(e, acts)
+  if ua_last:
+    star = res_id[("*", "*")]
+    eng.apply(e, [["AddRecord", "_grist_ACLRules", None, {"resource": star, "userAttributes": json.dumps(ua)}]
+                  for ua in USER_ATTRS])
   if direct:
     next_id = max(r["id"] for r in eng.meta_records(e, "_grist_ACLRules")) + 1
     das = []
@@ -393,7 +400,7 @@ def rename_actions(mode, renames):
 
 
 def eng_call(a):
-  e = build_doc(a["formulas"])
+  e = build_doc(a["formulas"], a.get("ua_last", False))
   before = observe(e)
   bundles = rename_actions(a["mode"], a["renames"])
   if bundles is None:
@@ -536,7 +543,8 @@ def eng_classify(a, clause, detail):
 
 
 def eng_show(a):
-  return {"formulas": [[s, text_of(p), "raw" if raw else "parsed"] for s, (p, raw) in zip(SLOTS, a["formulas"])],
+  return {"ua_last": a.get("ua_last", False),
+          "formulas": [[s, text_of(p), "raw" if raw else "parsed"] for s, (p, raw) in zip(SLOTS, a["formulas"])],
           "mode": a["mode"], "renames": sorted(a["renames"].items())}
 
 
@@ -576,7 +584,7 @@ def eng_cases(tier, seed):
       formulas.append(f)
     renames = RENAMES[j % len(RENAMES)] if j < 4 * len(RENAMES) else rng.choice(RENAMES)
     mode = rng.choice(["RenameColumn", "RenameColumn", "UpdateRecord", "bulk", "separate-bundles"])
-    yield {"formulas": formulas, "renames": dict(renames), "mode": mode}
+    yield {"formulas": formulas, "renames": dict(renames), "mode": mode, "ua_last": (j // 2) % 2 == 1}
 
 
 # ---------------------------------------------------------------------------------------------
